@@ -695,6 +695,17 @@ def g_constructions2d(ctx, rng, i):
     _try(g.is_perpendicular, l, m)
     _try(g.is_perpendicular, l, g.Line(np.array([h[1], -h[0], int(rng.integers(-4, 5))])))
     _try(g.angle_bisectors, l, m)
+    # lines returned by the library (perpendiculars, joins of mirror images: their coordinate arrays carry a non-real common factor)
+    perp_off = _try(l.perpendicular, p_off)
+    if perp_off is not None:
+        _try(g.angle_bisectors, l, perp_off)
+        _try(g.angle_bisectors, perp_off, m)
+        _try(g.angle_bisectors, m, g.Line(perp_off.array * (2 - 1j)))
+    mir = _try(l.mirror, p_off)
+    if mir is not None:
+        jm = _try(g.join, mir, g.Point(gen.finite_point(rng, 2)))
+        if jm is not None:
+            _try(g.angle_bisectors, jm, m)
     # collections with mixed on/off masks
     shape = gen.pick(rng, [(3,), (2, 2), (4,), (1,)])
     n = int(np.prod(shape))
